@@ -259,6 +259,71 @@ def rule_r2_fold(text, fold_types, applied):
         applied.append(f'R2(fold#{k})')
 
 
+def _receiver_start(st, i, what):
+    """st[i] is the method name preceded by '.'; returns token index where the receiver chain starts"""
+    j = i - 2
+    while True:
+        t = st[j]
+        if t.kind == 'punct' and t.text in (')', ']'):
+            j = match_backward(st, j) - 1
+            continue
+        if t.kind == 'ident':
+            if j > 0 and st[j - 1].text in ('.', '::'):
+                j -= 2
+                continue
+            return j
+        raise Undecided(f'{what}: cannot find receiver start (token {t.text!r})')
+
+
+def rule_r7_adapters(text, types, applied):
+    """Iterator::any / find / position with a closure literal -> their definitions in core (a loop over
+    next()), closure beta-reduced.  Ordinals count these three adapters in source order."""
+    names = ('any', 'find', 'position')
+    while True:
+        st = _lex(text)
+        idx = [i for i, t in enumerate(st) if t.kind == 'ident' and t.text in names and i > 0 and st[i - 1].text == '.'
+               and st[i + 1].text == '(' and st[i + 2].text == '|']
+        if not idx:
+            return text
+        k = len(idx)
+        i = idx[-1]
+        kind = st[i].text
+        j = _receiver_start(st, i, 'R7')
+        recv = text[st[j].start:st[i - 1].start].rstrip()
+        close = match_forward(st, i + 1)
+        c = i + 2
+        c2 = c + 1
+        d = 0
+        while not (st[c2].text == '|' and d == 0):
+            if st[c2].text in OPEN:
+                d += 1
+            elif st[c2].text in CLOSE:
+                d -= 1
+            c2 += 1
+        px = text[st[c].end:st[c2].start].strip()
+        last = close - 1
+        if st[last].text == ',':
+            last -= 1
+        body = text[st[c2 + 1].start:st[last].end]
+        for t in st[c2 + 1:last + 1]:
+            if t.kind == 'ident' and t.text == 'return' or t.kind == 'punct' and t.text == '?':
+                raise Undecided('R7: closure body contains return/?')
+        it, x, r = f'__itA{k}', f'__xA{k}', f'__rA{k}'
+        ty = types.get(k)
+        if kind == 'any':
+            new = (f'({{ let mut {it} = {recv}; let mut {r} = false;\n'
+                   f'loop {{ match {it}.next() {{ Some({x}) => {{ let {px} = {x}; if {body} {{ {r} = true; break; }} }}\n None => break, }} }}\n{r} }})')
+        elif kind == 'find':
+            tys = f': {ty}' if ty else ''
+            new = (f'({{ let mut {it} = {recv}; let mut {r}{tys} = None;\n'
+                   f'loop {{ match {it}.next() {{ Some({x}) => {{ let {px} = &{x}; if {body} {{ {r} = Some({x}); break; }} }}\n None => break, }} }}\n{r} }})')
+        else:
+            new = (f'({{ let mut {it} = {recv}; let mut {r}: Option<usize> = None; let mut __iA{k}: usize = 0;\n'
+                   f'loop {{ match {it}.next() {{ Some({x}) => {{ let {px} = {x}; if {body} {{ {r} = Some(__iA{k}); break; }} __iA{k} += 1; }}\n None => break, }} }}\n{r} }})')
+        text = text[:st[j].start] + new + text[st[close].end:]
+        applied.append(f'R7({kind}#{k})')
+
+
 def rule_r1_break_value(text, applied, breaktypes=None):
     """`break E` in a `loop` -> assignment + break (or `return E` when the loop is the function's tail)."""
     n = 0
@@ -356,6 +421,11 @@ def rule_r3_closures(text, closures, applied, emit_tag):
             body = '{ ' + text[st[j + 1].start:st[e - 1].end] + ' }'
             body_end = st[e - 1].end
         hdr = f'|{spec["params"]}|'
+        if spec.get('bind'):
+            # closure parameter pattern -> plain parameter + let (parameter patterns are irrefutable)
+            orig = text[st[i].end:st[j].start].strip()
+            pname = spec['params'].split(':')[0].strip()
+            body = '{ let ' + orig + ' = ' + pname + '; ' + body + ' }'
         if spec.get('ret'):
             hdr += f' -> ({spec["ret"]})'
         if spec.get('requires'):
@@ -606,7 +676,7 @@ def new_fn_spec(attrs):
         'id': attrs['id'], 'file': attrs['file'], 'name': attrs['name'], 'container': attrs.get('in'),
         'props': [p for p in attrs.get('props', '').split(',') if p],
         'ret': None, 'requires': [], 'ensures': [],  # ensures: list of {'label','props','lines'}
-        'loops': {}, 'folds': {}, 'closures': {}, 'ats': [], 'hoist': [], 'lettypes': {}, 'breaktypes': {}, 'desugar_for': [], 'container_extra': [], 'attrs': [],
+        'loops': {}, 'folds': {}, 'closures': {}, 'ats': [], 'hoist': [], 'lettypes': {}, 'breaktypes': {}, 'desugar_for': [], 'adapters': {}, 'container_extra': [], 'attrs': [],
         'recommends': [], 'decreases': [], 'stub_only': attrs.get('stub') == 'only', 'trusted_reason': attrs.get('trusted'),
     }
 
@@ -690,7 +760,7 @@ def parse_spec_file(path):
             cur['folds'][int(pos[0])] = attrs['type']
             sect = None
         elif kw == 'closure':
-            c = {'params': attrs['params'], 'ret': attrs.get('ret'), 'requires': [], 'ensures': []}
+            c = {'params': attrs['params'], 'ret': attrs.get('ret'), 'requires': [], 'ensures': [], 'bind': attrs.get('bind') == 'yes'}
             cur['closures'][int(pos[0])] = c
             cur['_closure'] = c
             sect = None
@@ -704,6 +774,9 @@ def parse_spec_file(path):
             sect = a['lines']
         elif kw == 'hoist':
             cur['hoist'] += pos
+            sect = None
+        elif kw == 'adapter':
+            cur['adapters'][int(pos[0])] = attrs.get('type')
             sect = None
         elif kw == 'desugar-for':
             cur['desugar_for'] += [int(x) for x in pos]
@@ -827,6 +900,7 @@ class Generator:
             if spec['hoist']:
                 text, hoisted = rule_r4_hoist(text, spec['hoist'], applied)
             text = rule_r2_fold(text, spec['folds'], applied)
+            text = rule_r7_adapters(text, spec['adapters'], applied)
             text = rule_r1_break_value(text, applied, spec['breaktypes'])
             text = rule_r6_desugar_for(text, spec['desugar_for'], applied)
             text = rule_r3_closures(text, spec['closures'], applied, None)
